@@ -31,6 +31,8 @@ opkinds! {
     UpStore = 8, 3;        // (h, q, s): upgrade h.w, store into q.s[s]
     UpRoot = 9, 2;         // (h, r): upgrade h.w, store into root slot r
     Garbage = 10, 0;
+    NewChildHolding = 86, 3; // (p, s, c): allocate a node that holds c in its slot 0 from construction, store it into p.s[s]
+    NewRootHolding = 87, 2;  // (r, c): the same into root slot r
     // ---- barrier paths (C06) ----
     AdoptNew = 11, 3;      // (path, p, s)
     Adopt = 12, 4;         // (path, p, s, c)
